@@ -120,8 +120,24 @@ def rule_bound(ctx) -> None:
                   ctx.path_witness(fn, p))
     # _clamp itself is two-sided
     cl = ctx.func(GEL + ":_clamp")
-    cmps = sorted(type(c.ops[0]).__name__ for c in walk_no_defs(cl.node) if isinstance(c, ast.Compare))
-    ctx.check(cmps == ["Gt", "Lt"], "C18.BOUND", f"{cl.qual}/two-sided", cl.loc(), "_clamp tests x > hi and x < lo", f"_clamp comparisons are {cmps}")
+    xp, lop, hip = (cl.params + ["", "", ""])[:3]
+    comps = [c for c in walk_no_defs(cl.node) if isinstance(c, ast.Compare) and len(c.ops) == 1]
+
+    def tests(a: str, op, b: str) -> bool:
+        flip = {ast.Gt: ast.Lt, ast.Lt: ast.Gt, ast.GtE: ast.LtE, ast.LtE: ast.GtE}
+        return any((src(c.left) == a and isinstance(c.ops[0], op) and src(c.comparators[0]) == b) or (src(c.left) == b and isinstance(c.ops[0], flip[op]) and src(c.comparators[0]) == a) for c in comps)
+
+    upper = tests(xp, ast.Gt, hip) or tests(xp, ast.GtE, hip)
+    lower = tests(xp, ast.Lt, lop) or tests(xp, ast.LtE, lop)
+    ctx.check(upper and lower, "C18.BOUND", f"{cl.qual}/two-sided", cl.loc(), "_clamp tests its value against both bounds", f"_clamp does not test `{xp}` against both `{lop}` and `{hip}`")
+    # ... and NaN: it fails every ordering test, so a clamp made of `x > hi` / `x < lo` alone returns it unchanged
+    nan_guard = any(isinstance(c.ops[0], (ast.NotEq, ast.Eq)) and src(c.left) == xp and src(c.comparators[0]) == xp for c in comps) or \
+        any(isinstance(y, ast.Call) and call_tail(y) in ("isnan", "isfinite") and y.args and src(y.args[0]) == xp for y in walk_no_defs(cl.node))
+    # or the positive form: the value is returned only where lo <= x <= hi holds (false for NaN)
+    positive = any(isinstance(c, ast.Compare) and len(c.ops) == 2 and src(c.comparators[0]) == xp for c in walk_no_defs(cl.node))
+    ctx.check(nan_guard or positive, "C18.BOUND", f"{cl.qual}/nan-does-not-pass", cl.loc(), "a NaN never leaves _clamp (it is tested for, or the value is returned only where lo <= x <= hi)",
+              "_clamp is made of `x > hi` / `x < lo` alone: NaN fails both and is returned as the weight - a weight outside every clamp bound that the decay tick never drops (abs(NaN) < floor is False); "
+              "inf * 0 in the proportional update or a NaN weight in a snapshot gets there")
 
 
 def rule_bound_everywhere(ctx) -> None:
@@ -620,6 +636,82 @@ def _keyed_folds(ctx, fn: Func) -> None:
     ctx.floor("C18.ORDERINS", "loops over the listed items", n_loops, 1)
 
 
+def rule_observe_records(ctx) -> None:
+    """(a) "one edge per unordered pair" / "at most the configured number of pairs among the top-k items": the items that are
+    paired carry each id once - they come out of a map keyed by id, or the pair loops skip ida == idb - otherwise an id listed
+    twice is paired with itself (a self-loop edge, the pair cap spent on it, its real pairs raised twice);
+    (b) an edge record is updated all at once: every conversion that can fail (int / float of a stored attribute) comes
+    before the first write to the record - a failure after `rec["weight"] = w` leaves the weight bumped while the rest of the
+    update, and of the pass, is missing (and the turn swallows the exception)."""
+    fn = ctx.func(GEL + ":observe_retrieval")
+    cfg = ctx.cfg(fn)
+    rd = ctx.rd(fn)
+    # (a)
+    pair_loops = [x for x in walk_no_defs(fn.node) if isinstance(x, ast.For) and any(isinstance(y, ast.For) for st in x.body for y in ast.walk(st))
+                  and any(isinstance(y, ast.Call) and call_tail(y) == "_edge_key" for st in x.body for y in ast.walk(st))]
+    ctx.floor("C18.KEY", "pair loops of observe_retrieval", len(pair_loops), 1)
+    for lp in pair_loops:
+        hn = [h for h in cfg.nodes if h.kind == "iter" and h.ast is lp]
+        src_list = lp.iter
+        while isinstance(src_list, ast.Call) and dotted(src_list.func) in ("enumerate", "list", "range", "len") and src_list.args:
+            src_list = src_list.args[0]
+        uniq = False
+        if isinstance(src_list, ast.Name) and hn:
+            sl = rd.slice([src_list], hn[0])
+            uniq = any(isinstance(c, ast.Call) and isinstance(c.func, ast.Attribute) and c.func.attr in ("items", "keys") for c in sl.calls()) or any(isinstance(c, ast.Call) and dotted(c.func) in ("set", "dict", "dict.fromkeys") for c in sl.calls())
+        skip_self = any(isinstance(y, ast.Compare) and len(y.ops) == 1 and isinstance(y.ops[0], (ast.Eq, ast.NotEq)) and isinstance(y.left, ast.Name) and isinstance(y.comparators[0], ast.Name)
+                        and {y.left.id, y.comparators[0].id} <= {z.id for st in lp.body for z in ast.walk(st) if isinstance(z, ast.Name)} and "id" in y.left.id.lower() for st in lp.body for y in ast.walk(st))
+        ctx.check(uniq or skip_self, "C18.KEY", ctx.okey(f"{fn.qual}/paired-items-are-distinct-ids"), fn.loc(lp), "the paired items carry each id once (keyed by id before the ranking, or self-pairs are skipped)",
+                  "the pair loops run over the ranked items as listed: an id listed twice is paired with itself - a self-loop edge `a→a` (src == dst), its real pairs are raised by 2 x alpha in one "
+                  "observation, and with pair_cap_per_obs = 1 the one allowed update is spent on the self-loop")
+    # (b)
+    n_upd = 0
+    for lp in pair_loops:
+        for inner in [y for st in lp.body for y in ast.walk(st) if isinstance(y, ast.For)] or [lp]:
+            body_nodes = [n for n in cfg.nodes if n.kind == "stmt" and any(n.ast is y for st in inner.body for y in ast.walk(st))]
+            recs = {t.value.id for n in body_nodes if isinstance(n.ast, ast.Assign) for t in n.ast.targets if isinstance(t, ast.Subscript) and isinstance(t.value, ast.Name) and const_str(t.slice) == "weight"}
+            writes = [n for n in body_nodes if isinstance(n.ast, ast.Assign) and any(isinstance(t, ast.Subscript) and isinstance(t.value, ast.Name) and t.value.id in recs and const_str(t.slice) == "weight" for t in n.ast.targets)
+                      and not isinstance(n.ast.value, ast.Constant)]
+            for w in writes:
+                n_upd += 1
+                after = cfg.reach([w], include_start=False)
+                heads = [h for h in cfg.nodes if h.kind == "iter"]
+                late = []
+                for m in body_nodes:
+                    if m not in after or m is w:
+                        continue
+                    # only within this iteration: reachable without passing a loop head
+                    if cfg.path([w], lambda z: z is m, avoid=lambda z: z in heads, include_start=False) is None:
+                        continue
+                    for c in node_calls(m):
+                        if isinstance(c.func, ast.Name) and c.func.id in ("int", "float") and c.args and not isinstance(c.args[0], ast.Constant) and not any(isinstance(st, ast.Try) and part == "body" for st, part in enclosing(ctx.prog, fn, c)):
+                            late.append(c)
+                ctx.check(not late, "C18.BOUND", ctx.okey(f"{fn.qual}/record-updated-all-at-once"), fn.loc(w.ast), "no fallible conversion follows the weight write within the update",
+                          f"`{src(late[0])[:40] if late else ''}` runs after `{src(w.ast)[:30]}`: if it raises (a stored counter that is not a number) the pass aborts with the weight already bumped - no gel "
+                          "record is written, yet the edge grows every turn and changes the next turn's hybrid rerank")
+    ctx.floor("C18.BOUND", "weight writes in the pair loops", n_upd, 1)
+
+
+def rule_promotion_idempotent(ctx) -> None:
+    """"promotion is idempotent": the clustering that feeds promotion must not see what promotion wrote.  apply_promotion
+    attaches concept<->member edges under a relation of its own; the adjacency builder of merge / split candidates skips edges
+    of that relation - otherwise the concept node joins its own cluster and every pass promotes a new c::c::... concept."""
+    ap = ctx.func(GEL + ":apply_promotion")
+    rels = {const_str(v) for x in walk_no_defs(ap.node) if isinstance(x, ast.Dict) for k, v in zip(x.keys, x.values) if k is not None and const_str(k) == "rel" and const_str(v)}
+    rels |= {const_str(x.value) for x in walk_no_defs(ap.node) if isinstance(x, ast.Assign) and any(isinstance(t, ast.Subscript) and const_str(t.slice) == "rel" for t in x.targets) and const_str(x.value)}
+    if not rels:
+        raise AnalysisError("anchor-vanished: relation written by apply_promotion")
+    ba = ctx.func(GEL + ":_build_adj")
+    cfg = ctx.cfg(ba)
+    adds = [n for n in cfg.nodes for c in node_calls(n) if call_tail(c) in ("append", "setdefault", "add")]
+    ctx.floor("C18.SCOPE", "adjacency insertions in _build_adj", len(adds), 2)
+    ok = bool(adds) and all(any((not pol) and "rel" in t and any(repr(r) in t or f'"{r}"' in t for r in rels) and "==" in t for t, pol in cfg.facts(n)) or
+                            any(pol and "rel" in t and any(repr(r) in t for r in rels) and "!=" in t for t, pol in cfg.facts(n)) for n in adds)
+    ctx.check(ok, "C18.SCOPE", f"{ba.qual}/clustering-ignores-promotion-edges", ba.loc(), f"edges of relation {sorted(rels)} never enter the clustering adjacency",
+              f"_build_adj takes every edge, the {sorted(rels)} attachments of apply_promotion included (weight 0.5 >= merge.min_avg_w): on the next pass the concept node is a member of its own cluster "
+              "and a NEW concept c::c::<id> is created - a second pass over an unchanged graph changes it (or attaches the concept to itself)")
+
+
 def _mutations(fn: Func) -> List[Tuple[str, ast.AST]]:
     out = []
     for x in walk_no_defs(fn.node):
@@ -779,5 +871,7 @@ def run(ctx) -> None:
     rule_key_siblings(ctx)
     rule_orderins(ctx)
     rule_scope(ctx)
+    rule_observe_records(ctx)
+    rule_promotion_idempotent(ctx)
     rule_gate(ctx)
     rule_no_module_state(ctx)
